@@ -16,7 +16,7 @@ theorem classSum_eq (H : ObsHyp c s chain) (w : Wid) (mc : Nat) (k : UClass) :
           spendableAt c.p (chain.length - 1) x && decide (x.amt ≠ 0))).filter
         (fun x => decide (kindOf x = k))).map (·.amt)).sum := by
   obtain ⟨hL, _⟩ := loc_bookOf (p := c.p) H.valid
-  have hp := coinsOf_perm_book w H.wf H.inv.agree hL
+  have hp := coinsOf_perm_bookM w H.wf H.inv.agree hL
   rw [(((hp.filter _).filter _).map _).sum_nat]
   unfold coinsOfWallet
   rw [← bookOf_L c.p c.own chain]
